@@ -25,6 +25,31 @@ NodeIdModel
         are permanent ids and never handed out),
       * any W consecutive allocations are pairwise distinct,
       * every id lies in [user * 2**26 + first, (user + 1) * 2**26).
+
+BitmapModel.judge_reserve  (round 7b)
+    reserve(a, n) of a range inside the partition, judged by the live set the
+    implementation reports afterwards: a range with no live address must
+    become live (exactly (a, n) is added), a range with at least one live
+    address must be refused (live set unchanged, nothing answered).
+
+PermIdModel  (round 7b)
+    Permanent node ids of client `user`: the zone below the first temporary
+    id, without the root node (0) and the client's default group (1):
+    [user * 2**26 + 2, user * 2**26 + first).  Ids that are live (handed out
+    and not freed) are pairwise distinct; a freed id may come back.  When
+    every id of the zone is live no correct answer exists: then only the zone
+    is judged (SuperCollider's allocator repeats the last id).
+
+PowerOfTwoModel / NumberPoolModel / RingModel  (round 7b)
+    The alternative allocators of the anchored file, judged as far as their
+    discipline allows.  Power of two: blocks are rounded up to a power of two,
+    never split and never merged, a freed block serves only requests of its
+    own size class, new blocks come from the untouched end; so "no space" is
+    wrong iff a freed block of the class exists or the untouched end still
+    has room for the rounded length.  Number pools (LRU, stack): single
+    numbers of [lo, hi], a live number is never handed out again, "none" only
+    when as many numbers are live as the pool holds.  Ring: numbers of
+    [lo, hi], any hi - lo + 1 consecutive answers pairwise distinct.
 """
 
 from collections import deque
@@ -124,6 +149,74 @@ class BitmapModel:
             self.used[k] = False
         return True
 
+    def range_state(self, a, n):
+        """'free' (no live address), 'occupied' (at least one live address)
+        or 'outside' (not inside the partition) for [a, a + n)."""
+        if n < 1 or a < self.lo or a + n > self.hi:
+            return 'outside'
+        lo = a - self.lo
+        return 'occupied' if any(self.used[lo:lo + n]) else 'free'
+
+    def free_runs(self):
+        """Maximal runs of free addresses as (absolute start, length)."""
+        runs, start = [], None
+        for k, u in enumerate(self.used):
+            if not u and start is None:
+                start = k
+            elif u and start is not None:
+                runs.append((start + self.lo, k - start))
+                start = None
+        if start is not None:
+            runs.append((start + self.lo, len(self.used) - start))
+        return runs
+
+    def judge_reserve(self, a, n, answer, raised, blocks):
+        """Judges reserve(a, n) (range inside the partition) by the live set
+        reported afterwards; records the range when it became live.
+        `raised`: the call raised; `answer`: what it returned otherwise."""
+        state = self.range_state(a, n)
+        assert state != 'outside'
+        got, exp = set(blocks), self.live_set()
+
+        def diff(want):
+            missing = sorted(want - got)[:4]
+            extra = sorted(got - want)[:4]
+            kind = ('lost-live-block' if missing and not extra else
+                    'phantom-block' if extra and not missing else 'both')
+            return kind, f'missing {missing} extra {extra}'
+
+        if state == 'free':
+            if raised:
+                return Verdict(False, 'free-range/raises',
+                               f'reserve({a}, {n}) of a free range raised; '
+                               f'live set afterwards: {diff(exp)[1]}')
+            if got == exp:
+                return Verdict(False, 'free-range-refused',
+                               f'reserve({a}, {n}) -> {answer!r}: no address of '
+                               'the range is live, nothing was reserved')
+            if got != exp | {(a, n)}:
+                kind, d = diff(exp | {(a, n)})
+                return Verdict(False, f'free-range/live-set-differs/{kind}',
+                               f'reserve({a}, {n}): {d}')
+            start = getattr(answer, 'start', answer)
+            if answer is not None and start != a:
+                return Verdict(False, 'free-range/answers-another-address',
+                               f'reserve({a}, {n}) -> {answer!r}')
+            for k in range(a - self.lo, a - self.lo + n):
+                self.used[k] = True
+            self.live[a] = n
+            return OK
+        if got != exp:
+            kind, d = diff(exp)
+            return Verdict(False, f'occupied-range-not-refused/{kind}',
+                           f'reserve({a}, {n}) overlaps a live range'
+                           f'{" (and raised)" if raised else ""}: {d}')
+        if not raised and answer is not None:
+            return Verdict(False, 'occupied-range-not-refused/answers-a-block',
+                           f'reserve({a}, {n}) overlaps a live range, '
+                           f'answered {answer!r}')
+        return OK
+
     def judge_blocks(self, blocks):
         """blocks: iterable of (start, size) the implementation reports live."""
         got = set(blocks)
@@ -182,6 +275,188 @@ class NodeIdModel:
         return OK
 
 
+class PermIdModel:
+    def __init__(self, user, first):
+        self.user = user
+        self.base = user * ID_SPAN
+        self.lo = self.base + 2
+        self.hi = self.base + first          # exclusive: first temporary id
+        self.capacity = max(0, first - 2)
+        self.live = set()
+        self.freed_once = set()
+        self.count = self.reused = self.exhausted_answers = 0
+        self.exhausted_repeats = 0
+
+    def exhausted(self):
+        return len(self.live) >= self.capacity
+
+    def judge(self, nid):
+        """Answer of alloc_perm() (None = refused)."""
+        full = self.exhausted()
+        if nid is None:
+            if full:
+                self.exhausted_answers += 1
+                return OK
+            return Verdict(False, 'no-perm-id-but-free-ids-exist',
+                           f'{len(self.live)} live of {self.capacity}')
+        self.count += 1
+        if isinstance(nid, bool) or not isinstance(nid, int):
+            return Verdict(False, 'perm-id-not-an-int', repr(nid))
+        if not (self.lo <= nid < self.hi):
+            if self.base <= nid < self.lo:
+                mech = 'perm-id-is-root-or-default-group'
+            elif self.hi <= nid < self.base + ID_SPAN:
+                mech = 'perm-id-in-temporary-window'
+            else:
+                mech = 'perm-id-outside-client-range'
+            return Verdict(False, mech,
+                           f'permanent id {nid} not in [{self.lo}, {self.hi}) '
+                           f'(user {self.user})')
+        if nid in self.live:
+            if full:
+                self.exhausted_answers += 1
+                self.exhausted_repeats += 1
+                return OK                    # no correct answer exists
+            return Verdict(False, 'perm-id-repeats-while-live',
+                           f'permanent id {nid} handed out again while live '
+                           f'({len(self.live)} live of {self.capacity})')
+        if nid in self.freed_once:
+            self.reused += 1
+        self.live.add(nid)
+        return OK
+
+    def free(self, nid):
+        if nid in self.live:
+            self.live.discard(nid)
+            self.freed_once.add(nid)
+            return True
+        return False
+
+
+def pow2ceil(n):
+    return 1 << (n - 1).bit_length()
+
+
+class PowerOfTwoModel:
+    def __init__(self, size, pos=0):
+        self.size, self.pos = size, pos
+        self.lo, self.hi = pos, size
+        self.used = [False] * max(0, size - pos)
+        self.live = {}                  # addr -> (n, rounded)
+        self.freed = {}                 # addr -> rounded (freed, not reissued)
+        self.high = pos                 # end of the touched part
+
+    def judge_alloc(self, n, answer):
+        p = pow2ceil(n)
+        if answer is None:
+            if p in self.freed.values():
+                return Verdict(False, 'no-space-but-freed-block-of-class-exists',
+                               f'alloc({n}) -> None, freed blocks of length {p}: '
+                               f'{sorted(a for a, q in self.freed.items() if q == p)[:4]}')
+            if self.high + p <= self.hi:
+                return Verdict(False, 'no-space-but-untouched-space-exists',
+                               f'alloc({n}) -> None, addresses from {self.high} '
+                               f'to {self.hi} never handed out')
+            return OK
+        if isinstance(answer, bool) or not isinstance(answer, int):
+            return Verdict(False, 'answer-not-an-address', f'alloc({n}) -> {answer!r}')
+        a = answer
+        if a < self.lo or a + n > self.hi:
+            return Verdict(False, 'range-leaves-partition',
+                           f'alloc({n}) -> {a}, partition [{self.lo}, {self.hi})')
+        for k in range(a - self.lo, a - self.lo + n):
+            if self.used[k]:
+                return Verdict(False, 'range-overlaps-live',
+                               f'alloc({n}) -> {a} overlaps live address {k + self.lo}')
+        for k in range(a - self.lo, a - self.lo + n):
+            self.used[k] = True
+        self.live[a] = (n, p)
+        for b, q in list(self.freed.items()):
+            if b < a + n and a < b + q:         # the space of a freed block is in use again
+                del self.freed[b]
+        self.high = max(self.high, min(self.hi, a + p))
+        return OK
+
+    def free(self, addr):
+        e = self.live.pop(addr, None) if addr is not None else None
+        if e is None:
+            return False
+        for k in range(addr - self.lo, addr - self.lo + e[0]):
+            self.used[k] = False
+        self.freed[addr] = e[1]
+        return True
+
+    def judge_blocks(self, starts):
+        got, exp = set(starts), set(self.live)
+        if got == exp:
+            return OK
+        missing, extra = sorted(exp - got)[:4], sorted(got - exp)[:4]
+        mech = ('live-set-differs/lost-live-block' if missing and not extra else
+                'live-set-differs/phantom-block' if extra and not missing else
+                'live-set-differs/both')
+        return Verdict(False, mech, f'missing {missing} extra {extra}')
+
+
+class NumberPoolModel:
+    def __init__(self, lo, hi, capacity):
+        self.lo, self.hi, self.capacity = lo, hi, capacity
+        self.live = set()
+
+    def judge_alloc(self, answer):
+        if answer is None:
+            if len(self.live) < self.capacity:
+                return Verdict(False, 'no-number-but-free-numbers-exist',
+                               f'alloc() -> None with {len(self.live)} live of '
+                               f'{self.capacity} numbers')
+            return OK
+        if isinstance(answer, bool) or not isinstance(answer, int):
+            return Verdict(False, 'answer-not-a-number', f'alloc() -> {answer!r}')
+        if not (self.lo <= answer <= self.hi):
+            return Verdict(False, 'number-outside-range',
+                           f'alloc() -> {answer}, range [{self.lo}, {self.hi}]')
+        if answer in self.live:
+            return Verdict(False, 'number-handed-out-while-live',
+                           f'alloc() -> {answer}, live {sorted(self.live)[:8]}')
+        self.live.add(answer)
+        return OK
+
+    def free(self, x):
+        if x in self.live:
+            self.live.discard(x)
+            return True
+        return False
+
+
+class RingModel:
+    def __init__(self, lo, hi):
+        self.lo, self.hi = lo, hi
+        self.window = hi - lo + 1
+        self.recent = deque()
+        self.recent_set = set()
+        self.count = self.wraps = 0
+        self.last = None
+
+    def judge(self, x):
+        self.count += 1
+        if isinstance(x, bool) or not isinstance(x, int):
+            return Verdict(False, 'answer-not-a-number', repr(x))
+        if not (self.lo <= x <= self.hi):
+            return Verdict(False, 'number-outside-range',
+                           f'alloc() -> {x}, range [{self.lo}, {self.hi}]')
+        if x in self.recent_set:
+            return Verdict(False, 'number-repeats-within-window',
+                           f'{x} again after {len(self.recent)} < window '
+                           f'{self.window} allocations')
+        if self.last is not None and x < self.last:
+            self.wraps += 1
+        self.last = x
+        self.recent.append(x)
+        self.recent_set.add(x)
+        if len(self.recent) >= self.window:
+            self.recent_set.discard(self.recent.popleft())
+        return OK
+
+
 def selftest():
     m = BitmapModel(16, 2, 32)
     assert m.lo == 34 and m.hi == 48
@@ -202,4 +477,47 @@ def selftest():
     assert n.judge(base + ID_SPAN - 3)         # window of 3 elapsed
     assert not n.judge(base + ID_SPAN - 3)     # repeats inside the window
     assert not NodeIdModel(1, 1000).judge(1000)
+    # reserve
+    m = BitmapModel(16, 2, 32)
+    assert m.range_state(33, 2) == 'outside' and m.range_state(40, 9) == 'outside'
+    assert m.judge_reserve(40, 3, None, False, [(40, 3)]) and m.live == {40: 3}
+    assert m.free_runs() == [(34, 6), (43, 5)]
+    assert m.range_state(38, 3) == 'occupied' and m.range_state(43, 5) == 'free'
+    assert m.judge_reserve(38, 3, None, False, [(40, 3)])            # refused
+    assert m.judge_reserve(38, 3, None, True, [(40, 3)])             # refused loudly
+    assert not m.judge_reserve(38, 3, None, False, [(38, 3), (40, 3)])
+    assert not m.judge_reserve(38, 3, None, False, [])
+    assert not m.judge_reserve(38, 3, 38, False, [(40, 3)])
+    assert not m.judge_reserve(34, 2, None, False, [(40, 3)])        # free, refused
+    assert not m.judge_reserve(34, 2, None, True, [(40, 3)])
+    assert not m.judge_reserve(34, 2, None, False, [(34, 3), (40, 3)])
+    assert not m.judge_reserve(34, 2, 35, False, [(34, 2), (40, 3)])
+    assert m.judge_reserve(34, 2, 34, False, [(34, 2), (40, 3)])
+    assert not m.judge_alloc(2, 34) and m.free(40) and m.judge_alloc(9, 36)
+    # permanent ids
+    p = PermIdModel(1, 5)                      # ids base+2 .. base+4
+    b = ID_SPAN
+    assert p.capacity == 3 and p.judge(b + 2) and p.judge(b + 4)
+    assert not p.judge(b + 2) and not p.judge(b + 5) and not p.judge(b + 1)
+    assert not p.judge(2) and not p.judge(None)
+    assert p.judge(b + 3) and p.exhausted() and p.judge(b + 3) and p.judge(None)
+    assert not p.judge(b + 5)
+    assert p.free(b + 3) and not p.free(b + 3) and p.judge(b + 3) and p.reused == 1
+    # power of two
+    q = PowerOfTwoModel(16, 1)
+    assert q.judge_alloc(3, 1) and q.high == 5 and q.judge_alloc(1, 5)
+    assert not q.judge_alloc(2, 3) and not q.judge_alloc(2, 15) and not q.judge_alloc(2, 0)
+    assert not q.judge_alloc(8, None) and q.judge_alloc(8, 6) and q.judge_alloc(2, 14)
+    assert q.judge_alloc(4, None) and q.free(1) and not q.free(1) and not q.free(2)
+    assert not q.judge_alloc(3, None) and q.judge_alloc(8, None)
+    assert q.judge_blocks([5, 6, 14]) and not q.judge_blocks([5, 6])
+    assert q.judge_alloc(4, 1) and not q.freed
+    # pools and ring
+    n = NumberPoolModel(3, 6, 3)
+    assert n.judge_alloc(3) and not n.judge_alloc(3) and not n.judge_alloc(7)
+    assert not n.judge_alloc(None) and n.judge_alloc(6) and n.judge_alloc(4)
+    assert n.judge_alloc(None) and n.free(6) and not n.free(6) and not n.judge_alloc(None)
+    r = RingModel(3, 5)
+    assert r.judge(3) and r.judge(4) and r.judge(5) and r.judge(3) and not r.judge(3)
+    assert not RingModel(3, 5).judge(6) and r.wraps == 1
     return True
